@@ -175,6 +175,28 @@ func (p *Peering) AddLink(link Link) error {
 	return nil
 }
 
+// WithRegisteredLink calls fn while the given link is guaranteed to stay
+// registered: it holds the links lock, checks that the link is the one
+// registered for its peer and is not closing, and only then calls fn.
+// It reports whether fn was called. State that is only valid while the link is
+// up (such as routes via the link) can be added in fn without racing with the
+// removal of the link.
+func (p *Peering) WithRegisteredLink(link frame.LinkAccessor, fn func()) bool {
+	if link == nil {
+		return false
+	}
+
+	p.linksLock.RLock()
+	defer p.linksLock.RUnlock()
+
+	registered, ok := p.links[link.Peer()]
+	if !ok || frame.LinkAccessor(registered) != link || registered.IsClosing() {
+		return false
+	}
+	fn()
+	return true
+}
+
 // RemoveLink removes the link from the peering list.
 // The link is not closed by this function!
 func (p *Peering) RemoveLink(link Link) {
